@@ -56,6 +56,9 @@ func c01(w *core.World, r *core.Report) {
 	r.Rule("R01.6", "database mapping is decided in selectDB only; SELECT is emitted on its changed edge with its result", 4)
 	ruleDbMapping(w, r)
 
+	r.Rule("R01.8", "transaction brackets are classified by the command table in every state (see R09.3)", 6)
+	ruleTxnStateMachine(w, r)
+
 	r.Rule("R01.7", "non-replayable command table: inserted unconditionally, contains the documented set, disjoint from key-addressed data commands", 3)
 	ruleNoRouteTable(w, r)
 }
@@ -848,6 +851,7 @@ func ruleDbMapping(w *core.World, r *core.Report) {
 	if len(readers) == 0 {
 		r.Fail("TargetDb-reader", token.NoPos, "no reader of the database mapping found")
 	}
+	ruleSelectDBBody(w, r)
 	// all replay paths call selectDB
 	for _, name := range []string{"(*syncer.RedisOutput).parseAofCommand", "(*syncer.RedisOutput).parseAofReplayUnits", "(*syncer.RedisOutput).rdbReplay", "(*syncer.RedisOutput).rdbReplayBisync"} {
 		f := fn(w, r, name)
@@ -952,4 +956,102 @@ func ruleNoRouteTable(w *core.World, r *core.Report) {
 			r.Fail("NewRedisOutput/insert-NoRouteCmds", f.Pos(), "the non-replayable command table is not installed in the output filter")
 		}
 	}
+}
+
+// ruleSelectDBBody checks selectDB itself on all of its paths: "no change" is
+// answered only for the unset database (-1); otherwise the result is
+// (target, target != current) with target = TargetDb when set, else
+// TargetDbMap[origin] when present, else origin.
+func ruleSelectDBBody(w *core.World, r *core.Report) {
+	f := fn(w, r, "(*syncer.RedisOutput).selectDB")
+	if f == nil {
+		return
+	}
+	if len(f.Params) != 3 {
+		r.Unresolved("selectDB/signature", "expected (ro, currentDB, originDB)")
+		return
+	}
+	cur, org := f.Params[1], f.Params[2]
+	isCur := func(v ssa.Value) bool { return core.Unwrap(v) == ssa.Value(cur) }
+	isOrg := func(v ssa.Value) bool { return core.Unwrap(v) == ssa.Value(org) }
+	isTargetDb := func(v ssa.Value) bool { return core.IsFieldLoad(core.Unwrap(v), "", "TargetDb") }
+	isMapOK := func(v ssa.Value) bool {
+		e, ok := core.Unwrap(v).(*ssa.Extract)
+		if !ok || e.Index != 1 {
+			return false
+		}
+		l, ok := e.Tuple.(*ssa.Lookup)
+		return ok && core.IsFieldLoad(l.X, "", "TargetDbMap") && isOrg(l.Index)
+	}
+	isMapVal := func(v ssa.Value) bool {
+		e, ok := core.Unwrap(v).(*ssa.Extract)
+		if !ok || e.Index != 0 {
+			return false
+		}
+		l, ok := e.Tuple.(*ssa.Lookup)
+		return ok && core.IsFieldLoad(l.X, "", "TargetDbMap") && isOrg(l.Index)
+	}
+	n, bad := 0, ""
+	var badPos token.Pos
+	core.EnumPaths(f.Blocks[0], 0, 10000, func(p *core.Path) {
+		ret, ok := p.End.(*ssa.Return)
+		if !ok || len(ret.Results) != 2 {
+			return
+		}
+		n++
+		if bad != "" {
+			return
+		}
+		fail := func(m string) { bad, badPos = m, ret.Pos() }
+		r0, r1 := p.Resolve(ret.Results[0]), p.Resolve(ret.Results[1])
+		if b, isC := core.ConstBool(r1); isC {
+			if b || !p.Holds(token.EQL, isOrg, isConstInt(-1)) {
+				fail("'no database change' is answered on a path where the source database is set: a SELECT of the source is swallowed")
+			}
+			return
+		}
+		cmp, ok := core.AsCmp(r1, true)
+		if !ok || cmp.Op != token.NEQ {
+			fail("the changed flag must be target != current")
+			return
+		}
+		x, y := p.Resolve(cmp.X), p.Resolve(cmp.Y)
+		if isCur(x) {
+			x, y = y, x
+		}
+		if !isCur(y) || core.Unwrap(x) != core.Unwrap(r0) {
+			fail("the changed flag must compare the returned target database with the current one")
+			return
+		}
+		switch {
+		case isTargetDb(x):
+			if !p.Holds(token.NEQ, isTargetDb, isConstInt(-1)) {
+				fail("the forced target database is used without testing that it is set")
+			}
+		case isMapVal(x):
+			if !p.Holds(token.EQL, isTargetDb, isConstInt(-1)) || !pathAssumed(p, isMapOK, true) {
+				fail("the mapped database must be used exactly when no forced database is set and the map has the source database")
+			}
+		case isOrg(x):
+			if !p.Holds(token.EQL, isTargetDb, isConstInt(-1)) || !pathAssumed(p, isMapOK, false) {
+				fail("the source database may be kept only when neither a forced nor a mapped database exists")
+			}
+		default:
+			fail("the target database is not one of forced / mapped / source")
+		}
+	})
+	if n < 4 {
+		r.Fail("selectDB/body", f.Pos(), "expected the four outcomes unset / forced / mapped / unmapped, found %d return paths", n)
+		return
+	}
+	r.Check(bad == "", "selectDB/body", badPos, "%s", bad)
+}
+
+func pathAssumed(p *core.Path, is func(ssa.Value) bool, val bool) bool {
+	for _, f := range p.Conds {
+		if f.Val == val && is(p.Resolve(f.Cond)) {
+			return true
+		}
+	}
+	return false
 }
